@@ -126,6 +126,11 @@ CHECKS = {
           "2-10 requests before /init and 4-25 after it per case (--max-body-bytes 16384): each of the 11 routes with a documented-valid body, a body it must reject (bad JSON, wrong types, schema violations, invalid search requests), a valid body with byte damage, an oversized body (Content-Length or chunked), a wrong content type, no body; /search with hostile mutated requests (C16's mutator); wrong methods, unknown paths, bytes that are not HTTP. Every request must get a syntactically valid HTTP response; on documented routes 2xx bodies carry the documented members and non-2xx bodies are {error:{type,reason}}; 404 before /init, 409 for a second /init, 413 for oversized bodies, 4xx (never 5xx) for invalid input, 2xx for valid input; undefined methods/paths and non-HTTP bytes get a well-formed non-2xx answer; /healthz answers after every request; an abort of the process is caught by the supervisor.",
           "Trusted: harness/src/httpc.rs. For undefined methods/paths only a well-formed refusal is required. Once a damaged-but-accepted schema created the index, validity of documents is no longer assumed.",
           "DESIGN.md §5 C24"),
+  "C25": ("exploration",
+          "differential property-based testing: the same generated script through a front-end (CLI subprocess, in-process HTTP service, C FFI) and through the Rust API with the front-end's own call pattern and options",
+          "Scripts of 4-14 steps on a fresh index - add/update documents (JSONL file, NDJSON/bulk body, add_json), delete ids, commit, compact, and searches restricted to what the front-end can express (CLI flags or --request file, HTTP JSON, FFI query/limit/cursor/aggs) - run through the CLI binary built from the working tree (one subprocess per command), the HTTP service (in-process, loopback) or the C API, and through the library on a second directory with the same call pattern (index opened per command, commit per document for add_json) and options (k1 0.9, b 0.4, positions on). Every search response must be equal as JSON (f32 scores within 1e-5 relative) including next_cursor and the second page, a command may fail only where the API call fails, and both directories must end with the same documents and stored fields.",
+          "Trusted: the library run as reference (checked by the other properties); harness/src/httpc.rs; JSON comparison. Documents in the scripts are schema-valid.",
+          "DESIGN.md §5 C25"),
   "C26": ("exploration",
           "property-based testing of the C ABI with guarded buffers (canary regions, every capacity in the thorough tier) in a supervised child process",
           "Indexes driven only through the C API (searchlite_index_open / add_json / commit / search): queries as plain text, JSON nodes and raw bytes incl. invalid UTF-8, limits 0..6, garbage and real cursors, valid/invalid aggregation JSON. The output buffer sits between two 64-byte canaries in an allocation pre-filled with 0xAA; for 40 sampled capacities plus the boundary ones (quick) or every capacity from 0 to full length + 16 (half of the thorough cases) the call must leave canaries and every byte at index >= buf_cap untouched, return ret <= buf_cap-1 with a NUL at ret and none before, write a prefix of the full response, leave a zero-capacity buffer alone; null handle/query/buffer return 0 and write nothing; failing searches return 0 and write nothing; null arguments to add/commit return negative status. A crash of the process (null dereference, abort) is caught by the supervisor and traced to the call in flight.",
